@@ -31,7 +31,7 @@ ASSUMPTIONS = ['sim processes share one heap (fork/pickle of flags is not modell
                'known findings of other properties (several requests per segment, follow-up to another origin) are kept out '
                'of the corpus']
 TIERS = {
-    'quick': {'runs': 700, 'budget_s': 60, 'max_clients': 6, 'large': 60000},
+    'quick': {'runs': 2400, 'budget_s': 60, 'max_clients': 6, 'large': 60000},
     'thorough': {'runs': 80000, 'budget_s': 900, 'max_clients': 8, 'large': 1 << 20},
 }
 STATE_MEASURE = 'distinct (role multiset, acceptors, workers) tuples'
